@@ -29,6 +29,10 @@ THEOREMS = [
     "TornadoModel.C41.exit0_children_empty",
     "TornadoModel.C41.success_iff_all_normal",
     "TornadoModel.C41.classify_agrees_with_posix",
+    "TornadoModel.C41.refines_slot_spec",
+    "TornadoModel.C41.refines_slot_spec_some",
+    "TornadoModel.C41.spec_defined_iff_fresh",
+    "TornadoModel.C41.refines_slot_spec_refuted",
 ]
 TRUSTED = [
     "os.fork/os.wait/sys.exit contracts as scripted by the harness stubs; Linux wait-status macros as modelled (C41/Model.lean: termSig, ifSignaled, exitStatus)",
@@ -52,11 +56,11 @@ CLAUSES = {
     "exits successfully only after every worker exited normally": "success_iff_all_normal, exit0_children_empty",
     "each worker process sees its own task id": "child_sees_own_id_initial, child_sees_own_id_restart (+ tie: task_id() observed in the stubbed and the real child)",
     "live ids are distinct and within 0..n-1 (invariant)": "inv_initial, inv_step, inv_loop, live_ids_distinct_in_range",
-    "model = slot specification on every OS-respecting script": "tie only: Spec.run is the oracle on every case (refinement theorem not attempted)",
+    "model = slot specification on every OS-respecting script": "refines_slot_spec, refines_slot_spec_some, spec_defined_iff_fresh (simulation relation Rel in C41/Refine.lean; side condition NoStopped: no status with low 7 bits = 127; without it refines_slot_spec_refuted) — and Spec.run is still the oracle on every case",
 }
 PARALLEL = False
 CASE_TIMEOUT = 60
-LEVEL_NOTE = "real signals and cpu_count are outside the model; Model-vs-Spec refinement is checked by the tie, not proved"
+LEVEL_NOTE = "real signals and cpu_count are outside the model; Model = Spec refinement proved (refines_slot_spec) for all histories without stopped/continued statuses"
 
 ST_N, ST_X, ST_S = 0, 256, 9          # representatives: exit(0), exit(1), SIGKILL
 EXITS = [0x0100, 0x0200, 0xff00, 0x7f00, 0x8000, 0x0300]
